@@ -52,10 +52,32 @@ func genExtent(max int) *rapid.Generator[int] {
 	})
 }
 
-// genShape: rank in [minRank,maxRank], extents 1..maxExt, at most maxElems elements.
+// hugeShape: a shape of rank r (>= 1) with 4 100 .. 20 000 elements, for the thresholds at which
+// implementations typically switch to blocked or parallel code (1 024, 4 096, 16 384 elements).
+func hugeShape(t *rapid.T, r int) []int {
+	s := make([]int, r)
+	for i := range s {
+		s[i] = 1
+	}
+	a := rapid.IntRange(0, r-1).Draw(t, "hugeAxis")
+	if r == 1 {
+		s[0] = rapid.SampledFrom([]int{4100, 5000, 8193, 16385, 17000}).Draw(t, "hugeLen")
+		return s
+	}
+	b := (a + 1 + rapid.IntRange(0, r-2).Draw(t, "hugeAxis2")) % r
+	s[a] = rapid.SampledFrom([]int{64, 65, 100, 127, 129}).Draw(t, "hugeA")
+	s[b] = rapid.SampledFrom([]int{65, 70, 100, 129, 150}).Draw(t, "hugeB")
+	return s
+}
+
+// genShape: rank in [minRank,maxRank], extents 1..maxExt (occasionally a big extent), at most
+// maxElems elements; callers that allow >= 1500 elements get a huge shape once in 600 draws.
 func genShape(minRank, maxRank, maxExt, maxElems int) *rapid.Generator[[]int] {
 	return rapid.Custom(func(t *rapid.T) []int {
 		r := rapid.IntRange(minRank, maxRank).Draw(t, "rank")
+		if maxElems >= 1500 && r >= 1 && rapid.IntRange(0, 599).Draw(t, "huge") == 0 {
+			return hugeShape(t, r)
+		}
 		s := make([]int, r)
 		n := 1
 		for i := range s {
@@ -79,12 +101,19 @@ func genBroadcastPair(maxRank, maxExt, maxElems int) *rapid.Generator[[3][]int] 
 		if r > maxRank {
 			r = maxRank
 		}
+		var huge []int
+		if maxElems >= 1500 && r >= 1 && rapid.IntRange(0, 599).Draw(t, "huge") == 0 {
+			huge = hugeShape(t, r)
+		}
 		a, b := make([]int, r), make([]int, r)
 		n := 1
 		for i := 0; i < r; i++ {
 			e := genExtent(maxExt).Draw(t, "e")
 			if n*e > maxElems {
 				e = 1
+			}
+			if huge != nil {
+				e = huge[i]
 			}
 			n *= e
 			a[i], b[i] = e, e
@@ -198,6 +227,16 @@ func isInt(dt tensor.Dtype) bool {
 // when special is set; for integers extremes are included when special is set.
 func genBacking(dt tensor.Dtype, n int, special bool) *rapid.Generator[any] {
 	return rapid.Custom(func(t *rapid.T) any {
+		if n > 2048 {
+			// huge tensors: 257 drawn values laid out by a fixed index scramble (keeps the number
+			// of draws, and with it generation and shrinking time, bounded)
+			base := reflect.ValueOf(genBacking(dt, 257, special).Draw(t, "base"))
+			s := reflect.MakeSlice(reflect.SliceOf(dt.Type), n, n)
+			for i := 0; i < n; i++ {
+				s.Index(i).Set(base.Index((i*7919 + i/257) % 257))
+			}
+			return s.Interface()
+		}
 		s := reflect.MakeSlice(reflect.SliceOf(dt.Type), n, n)
 		for i := 0; i < n; i++ {
 			v := s.Index(i)
